@@ -144,6 +144,9 @@ static bool upipe_ts_psim_merge(struct upipe *upipe, struct uref *uref,
 
         upipe_ts_psim->next_uref = uref_dup(uref);
         if (unlikely(upipe_ts_psim->next_uref == NULL)) {
+            /* the beginning of this section is lost: wait for the next
+             * unit start instead of taking what follows for a header */
+            upipe_ts_psim_flush(upipe);
             upipe_throw_fatal(upipe, UBASE_ERR_ALLOC);
             return false;
         }
